@@ -209,11 +209,12 @@ def res(thunk, printer, ty):
         return unexpected(ty, "%s: %s: %s" % (cn, type(e).__name__, e)), v, UnexpectedObs(str(e))
 
 
-def safe_obj_term(build_thunk):
-    """(term, instance, error text): build an input object and print it; never raises"""
+def safe_obj_term(build_thunk, spec=None):
+    """(term, instance, error text).  The term is the EXPECTED instance of the constructor call `spec`
+    (what its parameters call for), the instance is what the real constructor returned; never raises"""
     try:
         o = build_thunk()
-        return obj_term(o), o, None
+        return (expected_term(spec) if spec is not None else obj_term(o)), o, None
     except Exception as e:  # noqa: BLE001
         return None, None, "%s: %s" % (type(e).__name__, e)
 
@@ -283,13 +284,164 @@ def build(spec):
     name, args, kw, post = spec
     N = ns()
     if name in ("ReadFileRecordRequest", "ReadFileRecordResponse", "WriteFileRecordRequest", "WriteFileRecordResponse"):
-        recs = [N["FileRecord"](**dict(rk)) for rk in args[0]]
-        o = N[name](recs)
+        if args:
+            o = N[name]([N["FileRecord"](**dict(rk)) for rk in args[0]])
+        else:
+            kw2 = dict(kw)
+            if "records" in kw2:
+                kw2["records"] = [N["FileRecord"](**dict(rk)) for rk in kw2["records"]]
+            o = N[name](**kw2)
     else:
         o = N[name](*args, **kw)
     for k, v in post.items():
         setattr(o, k, v)
     return o
+
+
+# ------------------------------------------------------------------ expected instance of a constructor call
+# The input object of an enc/rt/hist case is NOT the dump of the instance the constructor returned but the
+# instance the constructor's documented parameters call for (parameter lists / defaults as in
+# GenPdu.ctor_sigs = Pdu.modelled_ctors).  A constructor that drops or alters an argument (e.g. `status or
+# True` swallowing status=False) then shows up as: spec_pdu(expected) <> what the real instance encodes.
+
+CTOR = {}
+for _n in ("ReadCoilsRequest", "ReadDiscreteInputsRequest", "ReadHoldingRegistersRequest", "ReadInputRegistersRequest",
+           "WriteMultipleCoilsResponse", "WriteMultipleRegistersResponse"):
+    CTOR[_n] = [("address", None), ("count", None)]
+for _n in ("WriteSingleRegisterRequest", "WriteSingleRegisterResponse", "WriteSingleCoilRequest", "WriteSingleCoilResponse"):
+    CTOR[_n] = [("address", None), ("value", None)]
+for _n in ("MaskWriteRegisterRequest", "MaskWriteRegisterResponse"):
+    CTOR[_n] = [("address", 0), ("and_mask", 0xffff), ("or_mask", 0)]
+CTOR["ReadFifoQueueRequest"] = [("address", 0)]
+CTOR["ReadDeviceInformationRequest"] = [("read_code", None), ("object_id", 0)]
+CTOR["ReadExceptionStatusResponse"] = [("status", 0)]
+CTOR["GetCommEventCounterResponse"] = [("count", 0)]
+CTOR["ExceptionResponse"] = [("function_code", None), ("exception_code", None)]
+for _n in ("ReadCoilsResponse", "ReadDiscreteInputsResponse", "ReadHoldingRegistersResponse", "ReadInputRegistersResponse",
+           "ReadWriteMultipleRegistersResponse", "ReadFifoQueueResponse"):
+    CTOR[_n] = [("values", None)]
+for _n in ("WriteMultipleCoilsRequest", "WriteMultipleRegistersRequest"):
+    CTOR[_n] = [("address", None), ("values", None)]
+CTOR["ReportSlaveIdResponse"] = [("identifier", b"\x00"), ("status", True)]
+for _n in ("ReadFileRecordRequest", "ReadFileRecordResponse", "WriteFileRecordRequest", "WriteFileRecordResponse"):
+    CTOR[_n] = [("records", None)]
+CTOR["ReadDeviceInformationResponse"] = [("read_code", None), ("information", None)]
+CTOR["ReadWriteMultipleRegistersRequest"] = [("read_address", 0), ("read_count", 0), ("write_address", 0), ("write_registers", None)]
+CTOR["GetCommEventLogResponse"] = [("status", True), ("message_count", 0), ("event_count", 0), ("events", [])]
+KWONLY = {"ReadWriteMultipleRegistersRequest", "GetCommEventLogResponse"}
+for _n in EMPTY:
+    CTOR[_n] = []
+for _b, _s in DIAG_SUBS:
+    for _d in ("Request", "Response"):
+        _c = diag_cls(_b, _d)
+        if _b == "ReturnQueryData":
+            CTOR[_c] = [("message", 0)]
+        elif _b == "RestartCommunicationsOption":
+            CTOR[_c] = [("toggle", False)]
+        elif _c == "ForceListenOnlyModeResponse":
+            CTOR[_c] = []
+        else:
+            CTOR[_c] = [("data", 0)]
+KWONLY.add("GetClearModbusPlusRequest")
+DIAG_SUB_OF = {diag_cls(b, d): s for b, s in DIAG_SUBS for d in ("Request", "Response")}
+
+
+def fake(name, **attrs):
+    o = type(name, (), {})()
+    o.__dict__.update(attrs)
+    return o
+
+
+def bind(name, args, kw):
+    params = CTOR[name]
+    if name in KWONLY and args:
+        raise Undumpable("%s takes keyword arguments only" % name)
+    if len(args) > len(params):
+        raise Undumpable("too many positional arguments for %s" % name)
+    b = {p: d for p, d in params}
+    for (p, _), v in zip(params, args):
+        b[p] = v
+    for k, v in kw.items():
+        if k not in b:
+            raise Undumpable("unknown parameter %s of %s" % (k, name))
+        b[k] = v
+    return b
+
+
+def expected_record(rk):
+    d = dict(rk)
+    data = d.get("record_data", "")
+    return fake("FileRecord", reference_type=d.get("reference_type", 6), file_number=d.get("file_number", 0),
+                record_number=d.get("record_number", 0), record_data=data,
+                record_length=d.get("record_length", len(data) // 2), response_length=d.get("response_length", len(data) + 1))
+
+
+def expected_instance(spec):
+    """the instance the public constructor's parameters call for (see ctor_sigs), then the post-assignments"""
+    name, args, kw, post = spec
+    b = bind(name, args, kw)
+    if name in FIXED and name != "ReadDeviceInformationRequest":
+        a = dict(b)
+    elif name == "ReadDeviceInformationRequest":
+        a = {"sub_function_code": 14, "read_code": b["read_code"] or 1, "object_id": b["object_id"]}
+    elif name in EMPTY:
+        a = {}
+    elif name == "WriteSingleCoilRequest":
+        a = {"address": b["address"], "value": bool(b["value"])}
+    elif name in ("WriteSingleCoilResponse", "WriteSingleRegisterRequest"):
+        a = dict(b)
+    elif name == "ReadExceptionStatusResponse":
+        a = dict(b)
+    elif name == "GetCommEventCounterResponse":
+        a = {"count": b["count"], "status": True}
+    elif name == "ExceptionResponse":
+        a = {"original_code": b["function_code"], "function_code": b["function_code"] | 0x80, "exception_code": b["exception_code"]}
+    elif name in ("ReadCoilsResponse", "ReadDiscreteInputsResponse"):
+        a = {"bits": b["values"] or []}
+    elif name in ("ReadHoldingRegistersResponse", "ReadInputRegistersResponse", "ReadWriteMultipleRegistersResponse"):
+        a = {"registers": b["values"] or []}
+    elif name == "ReadFifoQueueResponse":
+        a = {"values": b["values"] or []}
+    elif name == "WriteMultipleCoilsRequest":
+        v = b["values"]
+        v = [] if not v else (v if hasattr(v, "__iter__") else [v])
+        a = {"address": b["address"], "values": v, "byte_count": (len(v) + 7) // 8}
+    elif name == "WriteMultipleRegistersRequest":
+        v = b["values"]
+        v = [] if v is None else (v if hasattr(v, "__iter__") else [v])
+        a = {"address": b["address"], "values": v, "count": len(v), "byte_count": 2 * len(v)}
+    elif name == "ReadWriteMultipleRegistersRequest":
+        v = b["write_registers"]
+        v = v if hasattr(v, "__iter__") else [v]
+        a = {"read_address": b["read_address"], "read_count": b["read_count"], "write_address": b["write_address"],
+             "write_registers": v, "write_count": len(v), "write_byte_count": 2 * len(v)}
+    elif name == "GetCommEventLogResponse":
+        a = dict(b)
+    elif name == "ReportSlaveIdResponse":
+        a = {"identifier": b["identifier"], "status": b["status"], "byte_count": None}
+    elif name in ("ReadFileRecordRequest", "ReadFileRecordResponse", "WriteFileRecordRequest", "WriteFileRecordResponse"):
+        a = {"records": [expected_record(rk) for rk in (b["records"] or [])]}
+    elif name == "ReadDeviceInformationResponse":
+        a = {"sub_function_code": 14, "read_code": b["read_code"] or 1, "information": b["information"] or {},
+             "number_of_objects": 0, "conformity": 0x83, "next_object_id": 0, "more_follows": 0, "space_left": None}
+    elif name in DIAG_SUB_OF:
+        if "message" in b:
+            m = b["message"] if isinstance(b["message"], list) else [b["message"]]
+        elif "toggle" in b:
+            m = [0xff00] if b["toggle"] else [0]
+        elif "data" in b:
+            m = b["data"]
+        else:
+            m = []
+        a = {"function_code": 8, "sub_function_code": DIAG_SUB_OF[name], "message": m}
+    else:
+        raise Undumpable("no constructor model for %s" % name)
+    a.update(post)
+    return fake(name, **a)
+
+
+def expected_term(spec):
+    return obj_term(expected_instance(spec))
 
 
 def class_specs(r, tier, bad=0.1):
@@ -330,7 +482,7 @@ def class_specs(r, tier, bad=0.1):
         add("ReadDiscreteInputsResponse", (rbits(r, n),))
         add("WriteMultipleCoilsRequest", (u16(r, bad), rbits(r, n)))
     # register lists
-    for n in [0, 1, 2, 3, 122, 123, 124, 125, 126, 127, 128] + [r.randrange(2, 130) for _ in range(reps)]:
+    for n in [0, 1, 2, 3, 122, 123, 124, 125, 126, 127, 128, 129, 255, 256] + [r.randrange(2, 130) for _ in range(reps)]:
         b = bad if n < 20 else 0.0
         add("ReadHoldingRegistersResponse", (words(r, n, b),))
         add("ReadInputRegistersResponse", (words(r, n, b),))
@@ -379,6 +531,69 @@ def class_specs(r, tier, bad=0.1):
     add("ReadDeviceInformationResponse", (1, {0: rbytes(r, 120), 1: rbytes(r, 120), 2: rbytes(r, 5)}))
     add("ReadDeviceInformationResponse", (1, {0: rbytes(r, 120), 1: rbytes(r, 121), 2: rbytes(r, 5)}))
     add("ReadDeviceInformationResponse", (1, {0: rbytes(r, 120), 300: rbytes(r, 3)}))
+    # every public constructor: all-keyword form, and every parameter once with a falsy value
+    # (0 / False / [] / b'') while the others keep ordinary values
+    def ordinary(cn, p):
+        if p in ("values", "write_registers"):
+            return rbits(r, 3) if "Coils" in cn else words(r, 2)
+        if p == "events":
+            return [u8(r), u8(r)]
+        if p == "identifier":
+            return rbytes(r, 3)
+        if p == "records":
+            if cn == "ReadFileRecordRequest":
+                return [(("file_number", 3), ("record_number", 9), ("record_length", 2))]
+            if cn == "ReadFileRecordResponse":
+                return [(("record_data", rbytes(r, 4)),)]
+            return [(("file_number", 3), ("record_number", 9), ("record_data", rbytes(r, 4)))]
+        if p == "information":
+            return {0: rbytes(r, 3), 1: rbytes(r, 2)}
+        if p in ("status", "toggle"):
+            return True
+        if p == "value" and "Coil" in cn:
+            return True
+        if p == "message":
+            return [u16(r)]
+        if p in ("read_code",):
+            return r.choice([1, 2, 3, 4])
+        if p in ("object_id", "exception_code"):
+            return r.choice([1, 2, 3, 0x80])
+        if p == "function_code":
+            return r.choice([1, 3, 16, 43])
+        return r.choice([1, 2, 0x1234, 0xffff])
+
+    def falsy(cn, p):
+        if p in ("values", "write_registers", "events", "records", "message"):
+            return []
+        if p == "identifier":
+            return b""
+        if p == "information":
+            return {}
+        if p in ("status", "toggle") or (p == "value" and "Coil" in cn):
+            return False
+        return 0
+
+    for cn, params in sorted(CTOR.items()):
+        if not params:
+            continue
+        if cn == "ExceptionResponse":
+            continue                       # function code 0 is outside the property's domain
+        vals = {p: ordinary(cn, p) for p, _ in params}
+        add(cn, kw=dict(vals))
+        if cn not in KWONLY:
+            add(cn, [vals[p] for p, _ in params])
+        for p, _ in params:
+            v2 = dict(vals)
+            v2[p] = falsy(cn, p)
+            add(cn, kw=v2)
+            if cn not in KWONLY:
+                add(cn, [v2[q] for q, _ in params])
+        dflt = (cn, (), {params[0][0]: falsy(cn, params[0][0])}, {})   # the other parameters left at their defaults
+        try:
+            expected_term(dflt)                                       # (only where those defaults are encodable values)
+            out.append(dflt)
+        except Undumpable:
+            pass
     # diagnostics: every sub-function class, both directions
     for base, sub in DIAG_SUBS:
         for direction in ("Request", "Response"):
